@@ -16,6 +16,16 @@
 //   dumped content are cross-checked), footer total == |E|, "No memory leaks" text when E = {}
 //   the failure carries the name / file / line of the test that was running
 //   FinalReport after the program == the blocks still live (key prefix final-report:)
+// Detector configurations (Program::detmode):
+//   0  the leak plugin works on the GLOBAL detector, blocks come from the overloaded operators (as under RUN_ALL_TESTS)
+//   1  the leak plugin is constructed with its OWN detector (second constructor argument); scripts allocate through that
+//      detector's allocMemory / deallocMemory / reallocMemory with the current new / new[] / malloc allocators, exactly as
+//      the operators do on the global one. The global detector is idle (disabled) but still serves the runner's own `new`.
+//   2  TWO leak plugins in one registry: one on the global detector, one on its own detector; every alloc / temp /
+//      EXPECT / IGNORE operation is addressed to one of them. Each plugin must judge the blocks of ITS detector only; the
+//      plugin whose post action runs second sees a leak failure of the first as "test already failed". A marker plugin
+//      between the two records how many failures existed when the inner post action was done, which attributes every
+//      leak failure to its plugin without looking at the text.
 // Everything the monitor records during a run lives in static arrays / libc malloc, so that the
 // monitor itself allocates nothing through the tracked operators inside a checking period; all
 // judging happens after the run with the detector disabled.
@@ -59,6 +69,7 @@ struct OpRec { uint8_t op, slot, kind, pad; uint16_t size, arg; };
 struct TestScript { uint8_t nops[3]; uint8_t plugfail; OpRec ops[3][MAX_OPS]; };   // plugfail: another plugin records a failure in its pre (1) / post (2) action
 struct Program {
     int ntests, repeat, nslots, profile; bool threadsafe;
+    int detmode; bool local_outer;      // detmode see above; local_outer (mode 2): the own-detector plugin is the head of the chain (its post action runs last)
     TestScript t[MAX_TESTS];
 };
 static Program G;
@@ -73,16 +84,17 @@ static std::string describe_program(const Program& P) {
             for (int i = 0; i < P.t[t].nops[ph]; i++) {
                 const OpRec& o = P.t[t].ops[ph][i];
                 char b[96];
+                const char* at = (P.detmode == 2 && o.pad) ? "@own" : "";
                 switch (o.op) {
-                case O_ALLOC: snprintf(b, sizeof b, " alloc(s%d,%s,%u)", o.slot, KIND_NAME[o.kind], o.size); break;
+                case O_ALLOC: snprintf(b, sizeof b, " alloc%s(s%d,%s,%u)", at, o.slot, KIND_NAME[o.kind], o.size); break;
                 case O_FREE: snprintf(b, sizeof b, " free(s%d)", o.slot); break;
                 case O_REALLOC: snprintf(b, sizeof b, " realloc(s%d,%u)", o.slot, o.size); break;
                 case O_REALLOC_FAIL: snprintf(b, sizeof b, " realloc_fails(s%d,%u)", o.slot, o.size); break;
                 case O_FAIL: snprintf(b, sizeof b, " %s!", FAIL_NAME[o.kind]); break;
-                case O_EXPECT: snprintf(b, sizeof b, " EXPECT_N_LEAKS(%u)", o.arg); break;
-                case O_IGNORE: snprintf(b, sizeof b, " IGNORE_ALL_LEAKS"); break;
+                case O_EXPECT: snprintf(b, sizeof b, " EXPECT_N_LEAKS%s(%u)", at, o.arg); break;
+                case O_IGNORE: snprintf(b, sizeof b, " IGNORE_ALL_LEAKS%s", at); break;
                 case O_CHECK: snprintf(b, sizeof b, " check"); break;
-                default: snprintf(b, sizeof b, " temp(%s,%u)", KIND_NAME[o.kind], o.size); break;
+                default: snprintf(b, sizeof b, " temp%s(%s,%u)", at, KIND_NAME[o.kind], o.size); break;
                 }
                 s += b;
             }
@@ -90,12 +102,14 @@ static std::string describe_program(const Program& P) {
         if (P.t[t].plugfail) s += P.t[t].plugfail == 1 ? " | other plugin fails the test in preTestAction" : " | other plugin fails the test in postTestAction";
         tests.push_back(vf::jstr(s));
     }
-    return vf::J().k("profile", P.profile).k("tests", P.ntests).k("repeat", P.repeat).k("slots", P.nslots).k("threadsafe_overloads", P.threadsafe).raw("scripts", vf::jarr(tests)).str();
+    return vf::J().k("profile", P.profile).k("detectors", P.detmode == 0 ? "global" : P.detmode == 1 ? "plugin-with-own-detector" : P.local_outer ? "two-plugins:own-detector-plugin-outer" : "two-plugins:global-detector-plugin-outer").k("tests", P.ntests).k("repeat", P.repeat).k("slots", P.nslots).k("threadsafe_overloads", P.threadsafe).raw("scripts", vf::jarr(tests)).str();
 }
 
 static uint64_t program_hash(const Program& P) {
     uint64_t h = vf::fnv(&P.ntests, sizeof P.ntests);
     h = vf::fnv(&P.repeat, sizeof P.repeat, h);
+    int cfg = P.detmode * 2 + (P.detmode == 2 && P.local_outer ? 1 : 0);
+    if (cfg) h = vf::fnv(&cfg, sizeof cfg, h);
     for (int t = 0; t < P.ntests; t++) {
         h = vf::fnv(&P.t[t].plugfail, 1, h);
         for (int ph = 0; ph < 3; ph++) { h = vf::fnv(&P.t[t].nops[ph], 1, h); h = vf::fnv(P.t[t].ops[ph], sizeof(OpRec) * P.t[t].nops[ph], h); }
@@ -108,8 +122,10 @@ struct Block {
     void* p; unsigned allocnum; unsigned size; int kind; int line; const char* file;
     int owner_run, freed_run; unsigned char fill; int fillmode;   // 0 pattern byte, 1 zeros, 2 letters + NUL
     bool adopted;                                                 // result of a realloc of a block that an EARLIER test allocated
+    int det;                                                      // 0: tracked by the global detector, 1: by the plugin's own detector
 };
-struct RunRec { int test, own_fails, plugin_fails, fail_kind, freed_earlier, allocs, frees, realloc_failed; bool ignore, expect_set, ended; unsigned long expect; unsigned phases; };
+// per-plugin inputs are indexed by detector (0 global, 1 own); mark = number of failures recorded when the inner of two leak plugins had finished its post action
+struct RunRec { int test, own_fails, plugin_fails, fail_kind, freed_earlier[2], allocs, frees, realloc_failed, mark; bool ignore[2], expect_set[2], ended; unsigned long expect[2]; unsigned phases; };
 struct FailRec { int run; char* name; char* nameonly; char* file; size_t line; char* msg; };
 
 static Block B[MAX_BLOCKS]; static int nB;
@@ -119,8 +135,16 @@ static FailRec FR[MAX_FAILS]; static int nFR;
 static uint64_t OPC[O_N], KINDC[K_N];
 static uint64_t g_skipped_ops, g_alloc_null, g_ledger_full, g_misattributed_phase;
 static size_t RES_fail[4], RES_run[4];
-static MemoryLeakDetector* DET;
+static MemoryLeakDetector* DET;          // global detector
+static MemoryLeakDetector* LDET;         // the plugin's own detector (modes 1, 2), constructed per program in static storage
+static MemoryLeakWarningPlugin* PL[2];   // leak plugin per detector
+static MemoryLeakDetector* detector_of(int d) { return d ? LDET : DET; }
 static char SRC[80];
+static char LOCAL_MISUSE[300]; static int g_local_misuse;
+class LocalReporter : public MemoryLeakFailure {
+public:
+    void fail(char* text) override { if (!g_local_misuse++) snprintf(LOCAL_MISUSE, sizeof LOCAL_MISUSE, "%s", text); }
+};
 
 static const char* FILES[MAX_TESTS]; static const char* NAMES[MAX_TESTS]; static const char* GROUPS[MAX_TESTS];
 static const char* UNKNOWN_FILE = "<unknown>";
@@ -131,7 +155,25 @@ struct Pod { char b[24]; };
 static void* failing_realloc(void*, size_t) { return NULL; }
 static void* (*REAL_REALLOC)(void*, size_t);
 
-static void* raw_alloc(int kind, unsigned& size, const char* file, int line, unsigned char fill, int& fillmode) {
+static TestMemoryAllocator* family_allocator(int fam) { return fam == 0 ? getCurrentNewAllocator() : fam == 1 ? getCurrentNewArrayAllocator() : getCurrentMallocAllocator(); }
+
+// the same twelve kinds on the plugin's own detector: what the operators / cpputest_malloc family do on the global one
+// (allocator of the family, located or unlocated form, malloc family keeps its accounting nodes separately)
+static void* own_detector_alloc(int kind, unsigned& size, const char* file, int line, unsigned char fill, int& fillmode) {
+    fillmode = kind == K_CALLOC ? 1 : (kind == K_STRDUP || kind == K_STRNDUP) ? 2 : 0;
+    if (kind == K_OBJ) size = (unsigned) sizeof(Pod);
+    if (fillmode == 2) { if (size == 0) size = 1; if (size > 64) size = 64; }
+    int fam = family(kind);
+    char* p = located(kind) ? LDET->allocMemory(family_allocator(fam), size, file, (size_t) line, fam == 2) : LDET->allocMemory(family_allocator(fam), size, fam == 2);
+    if (!p) return NULL;
+    if (fillmode == 0) memset(p, fill, size);
+    else if (fillmode == 1) memset(p, 0, size);
+    else { memset(p, 'a' + fill % 26, size - 1); p[size - 1] = 0; }
+    return p;
+}
+
+static void* raw_alloc(int det, int kind, unsigned& size, const char* file, int line, unsigned char fill, int& fillmode) {
+    if (det) return own_detector_alloc(kind, size, file, line, fill, fillmode);
     void* p = NULL; fillmode = 0;
     switch (kind) {
     case K_NEW: p = ::operator new((size_t) size); break;
@@ -160,6 +202,7 @@ static void* raw_alloc(int kind, unsigned& size, const char* file, int line, uns
 }
 
 static void raw_free(const Block& b) {
+    if (b.det) { int fam = family(b.kind); LDET->deallocMemory(family_allocator(fam), b.p, "c07_free.c", 7, fam == 2); return; }
     switch (family(b.kind)) {
     case 0: if (b.kind == K_OBJ) delete (Pod*) b.p; else ::operator delete(b.p); break;
     case 1: delete[] (char*) b.p; break;
@@ -167,17 +210,17 @@ static void raw_free(const Block& b) {
     }
 }
 
-static void op_alloc(RunRec& rr, int test, int s, int kind, unsigned size) {
+static void op_alloc(RunRec& rr, int test, int s, int kind, unsigned size, int det) {
     if (SLOT[s] >= 0) { g_skipped_ops++; return; }
     if (nB >= MAX_BLOCKS) { g_ledger_full++; return; }
     Block& b = B[nB];
     b.kind = kind; b.fill = (unsigned char) (0x21 + (nB * 7) % 0x5d);
     b.file = located(kind) ? FILES[test] : UNKNOWN_FILE; b.line = located(kind) ? 1000 + nB : 0;
-    unsigned num = DET->getCurrentAllocationNumber();
+    unsigned num = detector_of(det)->getCurrentAllocationNumber();
     unsigned sz = size; int fm = 0;
-    void* p = raw_alloc(kind, sz, b.file, b.line, b.fill, fm);
+    void* p = raw_alloc(det, kind, sz, b.file, b.line, b.fill, fm);
     if (!p) { g_alloc_null++; return; }
-    b.p = p; b.allocnum = num; b.size = sz; b.fillmode = fm; b.owner_run = cur_run; b.freed_run = -1; b.adopted = false;
+    b.p = p; b.allocnum = num; b.size = sz; b.fillmode = fm; b.owner_run = cur_run; b.freed_run = -1; b.adopted = false; b.det = det;
     SLOT[s] = nB++; rr.allocs++; KINDC[kind]++;
 }
 
@@ -187,36 +230,41 @@ static void op_free(RunRec& rr, int s) {
     Block& b = B[bi];
     raw_free(b);
     b.freed_run = cur_run; SLOT[s] = -1; rr.frees++;
-    if (b.owner_run < cur_run) rr.freed_earlier++;
+    if (b.owner_run < cur_run) rr.freed_earlier[b.det]++;
 }
 
-static void op_realloc(RunRec& rr, int test, int s, unsigned size, bool fail) {
+static void op_realloc(RunRec& rr, int test, int s, unsigned size, bool fail, int det) {     // det: where a realloc(NULL, n) goes; an existing block stays with its detector
     int bi = SLOT[s];
     if (size == 0) size = 1;
     if (fail && G.threadsafe) { g_skipped_ops++; return; }   // a mishandled failure would end in a misuse report that leaves the detector's lock held (C10's known finding): keep the two apart
-    if (bi < 0) { if (fail) { g_skipped_ops++; return; } op_alloc(rr, test, s, K_REALLOC, size); return; }
+    if (bi < 0) { if (fail) { g_skipped_ops++; return; } op_alloc(rr, test, s, K_REALLOC, size, det); return; }
     if (family(B[bi].kind) != 2) { g_skipped_ops++; return; }
     if (nB >= MAX_BLOCKS) { g_ledger_full++; return; }
     Block& o = B[bi];
     Block& b = B[nB];
     b.kind = K_REALLOC; b.fill = (unsigned char) (0x21 + (nB * 7) % 0x5d); b.file = FILES[test]; b.line = 1000 + nB;
-    unsigned num = DET->getCurrentAllocationNumber();
+    unsigned num = detector_of(o.det)->getCurrentAllocationNumber();
     PlatformSpecificRealloc = fail ? failing_realloc : REAL_REALLOC;
-    void* q = cpputest_realloc_location(o.p, size, b.file, (size_t) b.line);
+    void* q = o.det ? (void*) LDET->reallocMemory(getCurrentMallocAllocator(), (char*) o.p, size, b.file, (size_t) b.line, true) : cpputest_realloc_location(o.p, size, b.file, (size_t) b.line);
     PlatformSpecificRealloc = REAL_REALLOC;
     if (!q) { rr.realloc_failed++; return; }                       // the old block is still valid and still outstanding
     memset(q, b.fill, size);
-    b.p = q; b.allocnum = num; b.size = size; b.fillmode = 0; b.owner_run = cur_run; b.freed_run = -1; b.adopted = o.owner_run < cur_run;
+    b.p = q; b.allocnum = num; b.size = size; b.fillmode = 0; b.owner_run = cur_run; b.freed_run = -1; b.adopted = o.owner_run < cur_run; b.det = o.det;
     o.freed_run = cur_run; rr.frees++;
-    if (o.owner_run < cur_run) rr.freed_earlier++;
+    if (o.owner_run < cur_run) rr.freed_earlier[o.det]++;
     SLOT[s] = nB++; rr.allocs++; KINDC[K_REALLOC]++;
 }
 
-static void op_temp(int test, int kind, unsigned size) {
-    Block b; b.kind = kind; b.fill = 0x7e; unsigned sz = size; int fm;
-    b.p = raw_alloc(kind, sz, FILES[test], 9, b.fill, fm);
+static void op_temp(int test, int kind, unsigned size, int det) {
+    Block b; b.kind = kind; b.fill = 0x7e; b.det = det; unsigned sz = size; int fm;
+    b.p = raw_alloc(det, kind, sz, FILES[test], 9, b.fill, fm);
     if (b.p) raw_free(b);
 }
+
+static char PLUGIN_STORAGE[sizeof(MemoryLeakWarningPlugin)] __attribute__((aligned(16)));
+static char PLUGIN2_STORAGE[sizeof(MemoryLeakWarningPlugin)] __attribute__((aligned(16)));
+static char LDET_STORAGE[sizeof(MemoryLeakDetector)] __attribute__((aligned(16)));
+static bool plugin_is_first(int det) { return (void*) PL[det] == (void*) PLUGIN_STORAGE; }
 
 static void run_phase(int test, int phase) {
     if (cur_run < 0 || cur_run >= MAX_RUNS) return;
@@ -228,15 +276,17 @@ static void run_phase(int test, int phase) {
     for (int i = 0; i < ts.nops[phase]; i++) {
         const OpRec& o = ts.ops[phase][i];
         OPC[o.op]++;
+        int det = G.detmode == 2 ? (o.pad & 1) : G.detmode;        // the detector / plugin the operation is addressed to
         switch (o.op) {
-        case O_ALLOC: op_alloc(rr, test, o.slot, o.kind, o.size); break;
+        case O_ALLOC: op_alloc(rr, test, o.slot, o.kind, o.size, det); break;
         case O_FREE: op_free(rr, o.slot); break;
-        case O_REALLOC: op_realloc(rr, test, o.slot, o.size, false); break;
-        case O_REALLOC_FAIL: op_realloc(rr, test, o.slot, o.size, true); break;
-        case O_TEMP: op_temp(test, o.kind, o.size); break;
+        case O_REALLOC: op_realloc(rr, test, o.slot, o.size, false, det); break;
+        case O_REALLOC_FAIL: op_realloc(rr, test, o.slot, o.size, true, det); break;
+        case O_TEMP: op_temp(test, o.kind, o.size, det); break;
         case O_CHECK: UtestShell::getCurrent()->assertTrue(true, "CHECK", "true", NULL, FILES[test], 50 + (size_t) i); break;
-        case O_EXPECT: EXPECT_N_LEAKS(o.arg); rr.expect = o.arg; rr.expect_set = true; break;
-        case O_IGNORE: IGNORE_ALL_LEAKS_IN_TEST(); rr.ignore = true; break;
+        // the macros talk to the first plugin ever constructed (always the one in PLUGIN_STORAGE); a second leak plugin is told directly
+        case O_EXPECT: if (plugin_is_first(det)) { EXPECT_N_LEAKS(o.arg); } else PL[det]->expectLeaksInTest(o.arg); rr.expect[det] = o.arg; rr.expect_set[det] = true; break;
+        case O_IGNORE: if (plugin_is_first(det)) { IGNORE_ALL_LEAKS_IN_TEST(); } else PL[det]->ignoreAllLeaksInTest(); rr.ignore[det] = true; break;
         case O_FAIL:
             rr.own_fails++; rr.fail_kind = o.kind;
             switch (o.kind) {
@@ -284,6 +334,14 @@ public:
 };
 static FailPlugin* FAILPLUGIN;
 
+// sits between two leak plugins: when its post action runs, exactly the inner leak plugin has given its verdict
+class MarkerPlugin : public TestPlugin {
+public:
+    MarkerPlugin() : TestPlugin("C07MarkerPlugin") {}
+    void postTestAction(UtestShell&, TestResult&) override;
+};
+static MarkerPlugin* MARKER;
+
 // ------------------------------------------------------------------ recording output (libc malloc only)
 class Recorder : public TestOutput {
 public:
@@ -293,7 +351,7 @@ public:
         if (nR >= MAX_RUNS) { cur_run = -1; return; }
         cur_run = nR++;
         RunRec& rr = R[cur_run]; memset(&rr, 0, sizeof rr);
-        rr.test = -1;
+        rr.test = -1; rr.mark = -1;
         for (int i = 0; i < G.ntests; i++) if ((const UtestShell*) SH[i] == &t) rr.test = i;
     }
     void printCurrentTestEnded(const TestResult&) override { if (cur_run >= 0) R[cur_run].ended = true; }
@@ -312,6 +370,8 @@ public:
         r.msg = strdup(f.getMessage().asCharString());
     }
 };
+
+void MarkerPlugin::postTestAction(UtestShell&, TestResult&) { if (cur_run >= 0 && !R[cur_run].ended) R[cur_run].mark = nFR; }
 
 // Leftover blocks are released from inside a test of their own (no leak plugin): should a broken detector answer a
 // release with a misuse failure, the failure is contained by the test runner instead of unwinding the harness.
@@ -394,8 +454,9 @@ static Parsed parse_report(const char* text) {
 // ------------------------------------------------------------------ judge
 struct Judge {
     vf::Ctx& c;
-    std::map<unsigned, int> by_num;
-    explicit Judge(vf::Ctx& cc) : c(cc) { for (int i = 0; i < nB; i++) by_num[B[i].allocnum] = i; }
+    std::map<uint64_t, int> by_num;                                  // (detector, allocation number) -> ledger block
+    static uint64_t key(int det, unsigned num) { return ((uint64_t) det << 32) | num; }
+    explicit Judge(vf::Ctx& cc) : c(cc) { for (int i = 0; i < nB; i++) by_num[key(B[i].det, B[i].allocnum)] = i; }
 
     static int expected_byte(const Block& b, unsigned i) {
         if (b.fillmode == 1) return 0;
@@ -408,7 +469,9 @@ struct Judge {
         return est;
     }
     // compares a report text with the set E of ledger blocks; `at_run` = run whose end the report describes (nR for the final report)
-    void check_report(const std::string& pfx, const char* text, const std::set<int>& E, int at_run, const std::string& where) {
+    // sfx: key suffix naming the plugin configuration ("" for the plugin on the global detector)
+    void check_report(const std::string& pfx0, const std::string& sfx, int det, const char* text, const std::set<int>& E, int at_run, const std::string& where) {
+        struct Pfx { std::string p, s; std::string operator+(const std::string& k) const { return p + k + s; } } pfx { pfx0, sfx };
         Parsed P = parse_report(text);
         c.count("reports_parsed");
         if (E.empty()) {
@@ -428,7 +491,13 @@ struct Judge {
         std::set<int> seen;
         for (const Entry& e : P.e) {
             c.count("report_entries_checked");
-            auto it = by_num.find(e.num);
+            auto it = by_num.find(key(det, e.num));
+            if (it == by_num.end()) {
+                // a block that only the OTHER detector tracks? (same address and size under the other detector's numbering)
+                bool foreign = false;
+                for (int i = 0; i < nB && !foreign; i++) if (B[i].det != det && B[i].allocnum == e.num && e.has_mem && (uintptr_t) B[i].p == e.addr && B[i].size == e.size) foreign = true;
+                if (foreign) { c.violation(pfx + "lists-block-of-other-detector", where + ": alloc num " + std::to_string(e.num) + " size " + std::to_string(e.size) + " at " + e.file + ":" + std::to_string(e.line) + " is tracked by the other plugin's detector"); continue; }
+            }
             if (it == by_num.end()) { c.violation(pfx + "lists-unknown-block", where + ": alloc num " + std::to_string(e.num) + " size " + std::to_string(e.size) + " at " + e.file + ":" + std::to_string(e.line) + " was not allocated by any test script"); continue; }
             int bi = it->second; const Block& b = B[bi];
             if (!E.count(bi)) {
@@ -451,15 +520,13 @@ struct Judge {
             }
         }
         if (!trunc && seen.size() != E.size()) {
-            for (int bi : E) if (!seen.count(bi)) { c.violation(pfx + "omits-outstanding-block" + (B[bi].adopted && at_run < nR ? ":realloc-of-earlier-tests-block" : ""), where + ": block #" + std::to_string(bi) + " (alloc num " + std::to_string(B[bi].allocnum) + ", " + KIND_NAME[B[bi].kind] + ", size " + std::to_string(B[bi].size) + ", run " + std::to_string(B[bi].owner_run) + ") is not listed"); break; }
+            for (int bi : E) if (!seen.count(bi)) { c.violation(pfx + (std::string("omits-outstanding-block") + (B[bi].adopted && at_run < nR ? ":realloc-of-earlier-tests-block" : "")), where + ": block #" + std::to_string(bi) + " (alloc num " + std::to_string(B[bi].allocnum) + ", " + KIND_NAME[B[bi].kind] + ", size " + std::to_string(B[bi].size) + ", run " + std::to_string(B[bi].owner_run) + ") is not listed"); break; }
         }
         if (!P.has_total) c.violation(pfx + "total-missing", where + ": no 'Total number of leaks' line");
         else if (P.total != (long) E.size()) c.violation(pfx + "total-wrong", where + ": footer says " + std::to_string(P.total) + ", outstanding blocks: " + std::to_string(E.size()));
         if (!trunc) c.count("reports_exact");
     }
 };
-
-static char PLUGIN_STORAGE[sizeof(MemoryLeakWarningPlugin)] __attribute__((aligned(16)));
 
 // runs G, judges, cleans up. Everything from `enable` to `disable` is allocation-free on the harness side.
 static void run_and_judge(vf::Ctx& c) {
@@ -473,22 +540,34 @@ static void run_and_judge(vf::Ctx& c) {
     DET = MemoryLeakWarningPlugin::getGlobalDetector();
     DET->disable();
     PlatformSpecificRealloc = REAL_REALLOC;
+    const int mode = G.detmode;
+    const bool has[2] = { mode != 1, mode != 0 };             // which detectors carry a leak plugin
+    g_local_misuse = 0; LDET = NULL; PL[0] = PL[1] = NULL;
+    static LocalReporter local_reporter;
+    // the plugin's own detector: constructed and destroyed with the operator overloads OFF (its mutex comes from plain malloc)
+    if (has[1]) LDET = ::new ((void*) LDET_STORAGE) MemoryLeakDetector(&local_reporter);
     // Outside the program window the harness (vf runtime, judge, std containers) runs with cpputest's operator overloads
     // switched OFF, so none of its own memory ever enters the detector's 73-bucket table (hundreds of thousands of
     // long-lived signature nodes would make every table walk slow). Inside the window the harness allocates nothing that
     // outlives the window and releases nothing that was allocated outside it.
     MemoryLeakWarningPlugin::turnOnDefaultNotThreadSafeNewDeleteOverloads();
     size_t residual_before = DET->totalMemoryLeaks(mem_leak_period_enabled);
-    char* final_text = NULL;
+    char* final_text[2] = { NULL, NULL };
     {
-        // a fresh plugin object per program, always at the same address (EXPECT_N_LEAKS talks to the first plugin ever constructed)
-        MemoryLeakWarningPlugin* plugin = ::new ((void*) PLUGIN_STORAGE) MemoryLeakWarningPlugin("C07LeakPlugin");   // its constructor enables the detector
+        // fresh plugin objects per program, always at the same addresses (EXPECT_N_LEAKS talks to the first plugin ever
+        // constructed: PLUGIN_STORAGE). Each constructor enables the detector it is given.
+        MemoryLeakWarningPlugin* first = mode == 1 ? ::new ((void*) PLUGIN_STORAGE) MemoryLeakWarningPlugin("C07LeakPluginOwnDetector", LDET)
+                                                   : ::new ((void*) PLUGIN_STORAGE) MemoryLeakWarningPlugin("C07LeakPlugin");
+        PL[mode == 1 ? 1 : 0] = first;
+        if (mode == 2) PL[1] = ::new ((void*) PLUGIN2_STORAGE) MemoryLeakWarningPlugin("C07LeakPluginOwnDetector", LDET);
         if (G.threadsafe) MemoryLeakWarningPlugin::turnOnThreadSafeNewDeleteOverloads();
         TestRegistry reg;
         bool anyplug = false;
         for (int i = G.ntests - 1; i >= 0; i--) { reg.addTest(SH[i]); anyplug |= G.t[i].plugfail != 0; }
         if (anyplug) reg.installPlugin(FAILPLUGIN);
-        reg.installPlugin(plugin);                    // head of the chain: first pre action, last post action, as in RunAllTests
+        // head of the chain: first pre action, last post action, as in RunAllTests
+        if (mode == 2) { int outer = G.local_outer ? 1 : 0; reg.installPlugin(PL[1 - outer]); reg.installPlugin(MARKER); reg.installPlugin(PL[outer]); }
+        else reg.installPlugin(first);
         Recorder out;
         for (int k = 0; k < rep; k++) {
             TestResult tr(out);
@@ -499,21 +578,26 @@ static void run_and_judge(vf::Ctx& c) {
         PlatformSpecificRealloc = REAL_REALLOC;
         // the detector's text buffer accumulates until startChecking(): drop the last test's report so that the
         // text returned below is the final report alone (period is `enabled` before and after)
-        DET->startChecking(); DET->stopChecking();
-        final_text = strdup(plugin->FinalReport(0));
+        for (int d = 0; d < 2; d++) if (has[d]) {
+            detector_of(d)->startChecking(); detector_of(d)->stopChecking();
+            final_text[d] = strdup(PL[d]->FinalReport(0));
+        }
         DET->disable();
+        if (LDET) LDET->disable();
         MemoryLeakWarningPlugin::turnOnDefaultNotThreadSafeNewDeleteOverloads();
         reg.resetPlugins();
-        plugin->~MemoryLeakWarningPlugin();
+        for (int d = 0; d < 2; d++) if (has[d]) PL[d]->~MemoryLeakWarningPlugin();
         MemoryLeakWarningPlugin::turnOffNewDeleteOverloads();
     }
 
-    // ---------------- judge (operator overloads off and detector disabled: std containers are invisible to it)
+    // ---------------- judge (operator overloads off and detectors disabled: std containers are invisible to them)
     Judge J(c);
     bool nontrivial = false;
+    static const char* SFX[2] = { "", ":plugin-with-own-detector" };
     if (residual_before) c.violation("harness:residual-blocks-before-program", std::to_string(residual_before) + " enabled-period blocks were live before the program started");
     if (g_misattributed_phase) c.violation("harness:phase-ran-outside-its-test", "a test phase executed while the output reported another current test");
     if (nR != G.ntests * rep) c.violation("harness:tests-run-mismatch", std::to_string(nR) + " tests started, expected " + std::to_string(G.ntests * rep));
+    if (g_local_misuse) c.violation("own-detector:misuse-reported", std::to_string(g_local_misuse) + " misuse report(s) from the plugin's own detector although every release matched its allocation, first: " + std::string(LOCAL_MISUSE).substr(0, 300));
     size_t total_fail_seen = 0;
     for (int k = 0; k < rep; k++) total_fail_seen += RES_fail[k];
     if ((int) total_fail_seen != nFR) c.violation("result:failure-count-mismatch", "TestResult counted " + std::to_string(total_fail_seen) + " failures, output received " + std::to_string(nFR));
@@ -522,75 +606,121 @@ static void run_and_judge(vf::Ctx& c) {
     for (int r = 0; r < nR; r++) {
         const RunRec& rr = R[r];
         if (rr.test < 0) { c.violation("harness:unknown-test-started", "run " + std::to_string(r)); continue; }
-        std::set<int> E; int released_own = 0;
-        for (int i = 0; i < nB; i++) if (B[i].owner_run == r) { if (B[i].freed_run == -1 || B[i].freed_run > r) E.insert(i); else released_own++; }
-        unsigned long expected = rr.expect_set ? rr.expect : 0;
-        bool want = rr.own_fails == 0 && !rr.ignore && E.size() != expected;
-        std::vector<const FailRec*> own, leak, other;
+        if (mode == 2 && rr.mark < 0) { c.violation("harness:marker-plugin-not-run", "run " + std::to_string(r)); continue; }
+        std::vector<const FailRec*> own, other, leak[2];
+        // with two leak plugins: failures recorded before the marker's post action belong to the inner plugin, later ones to the outer
+        const int inner = mode == 2 ? (G.local_outer ? 0 : 1) : (mode == 1 ? 1 : 0);
         for (int i = 0; i < nFR; i++) if (FR[i].run == r) {
             const char* m = FR[i].msg;
-            if (strncmp(m, "Memory leak(s) found.", 21) == 0 || strncmp(m, "No memory leaks were detected.", 30) == 0) leak.push_back(&FR[i]);
+            if (strncmp(m, "Memory leak(s) found.", 21) == 0 || strncmp(m, "No memory leaks were detected.", 30) == 0) leak[mode == 2 ? (i < rr.mark ? inner : 1 - inner) : inner].push_back(&FR[i]);
             else if (strstr(m, OWN_TEXT) || strncmp(m, "Unexpected exception", 20) == 0) own.push_back(&FR[i]);
             else other.push_back(&FR[i]);
         }
-        std::string where = "run " + std::to_string(r) + " (test " + NAMES[rr.test] + "): own failures " + std::to_string(rr.own_fails) + ", ignore " + std::to_string(rr.ignore) + ", expected " + (rr.expect_set ? std::to_string(rr.expect) : std::string("default 0")) +
-                            ", outstanding own blocks " + std::to_string(E.size()) + ", released blocks of earlier tests " + std::to_string(rr.freed_earlier);
-        std::string decl = rr.expect_set ? "declared" : "default";
-        // would the observed verdict be right if a realloc'ed block still belonged to the test that first allocated it? (diagnostic suffix only)
-        size_t adopted = 0; for (int bi : E) if (B[bi].adopted) adopted++;
-        bool want_alt = rr.own_fails == 0 && !rr.ignore && E.size() - adopted != expected;
-        std::string alt = (adopted && want_alt == !leak.empty()) ? ":consistent-if-realloc-of-earlier-tests-block-is-not-an-allocation" : "";
-        if (adopted) c.count("tests_leaking_realloc_of_earlier_tests_block");
-        if (!other.empty()) { std::string m(other[0]->msg); c.violation("unclassified-failure:" + m.substr(0, std::min(m.find('\n'), (size_t) 48)), where + ": " + m.substr(0, 300)); }
-        if ((int) own.size() != rr.own_fails) c.violation("harness:own-failure-count", where + ": " + std::to_string(own.size()) + " own failures recorded by the output");
-        // verdict
-        if (leak.size() > 1) c.violation("verdict:leak-failure-repeated", where + ": " + std::to_string(leak.size()) + " leak failures for one test");
-        if (want && leak.empty()) {
-            std::string k = "verdict:leak-failure-missing:" + std::string(E.size() > expected ? "more-than-" : "fewer-than-") + decl + (rr.freed_earlier ? ":released-earlier-tests-blocks" : "") + alt;
-            c.violation(k, where);
-        }
-        if (!want && !leak.empty()) {
-            std::string reason = rr.own_fails ? "test-already-failed" : rr.ignore ? "leaks-ignored" : "count-equals-" + decl;
-            Parsed P = parse_report(leak[0]->msg);
-            bool earlier = false;
-            for (const Entry& e : P.e) { auto it = J.by_num.find(e.num); if (it != J.by_num.end() && B[it->second].owner_run < r) earlier = true; }
-            c.violation("verdict:leak-failure-spurious:" + reason + (earlier ? ":blames-earlier-tests-blocks" : "") + alt, where + ": " + std::string(leak[0]->msg).substr(0, 400));
-        }
-        if (!leak.empty()) {
-            const FailRec* f = leak[0];
-            if (strcmp(f->nameonly, NAMES[rr.test]) != 0 || !strstr(f->name, GROUPS[rr.test])) c.violation("blame:leak-failure-names-other-test", where + ": failure is attributed to " + f->name);
-            if (strcmp(f->file, FILES[rr.test]) != 0 || f->line != SH[rr.test]->getLineNumber()) c.violation("blame:leak-failure-location", where + ": failure located at " + std::string(f->file) + ":" + std::to_string(f->line));
-            if (want) J.check_report("report:", f->msg, E, r, where);
-            c.count("leak_failures_observed");
-        }
-        // evidence
+        std::string where0 = "run " + std::to_string(r) + " (test " + NAMES[rr.test] + "): own failures " + std::to_string(rr.own_fails);
+        if (!other.empty()) { std::string m(other[0]->msg); c.violation("unclassified-failure:" + m.substr(0, std::min(m.find('\n'), (size_t) 48)), where0 + ": " + m.substr(0, 300)); }
+        if ((int) own.size() != rr.own_fails) c.violation("harness:own-failure-count", where0 + ": " + std::to_string(own.size()) + " own failures recorded by the output");
         c.count("tests_run");
-        if (want) c.count(E.size() > expected ? "verdict_leak_more_than_expected" : "verdict_leak_fewer_than_expected");
-        else if (rr.own_fails) c.count(E.empty() ? "verdict_failed_test_clean" : "verdict_failed_test_with_outstanding_blocks");
-        else if (rr.ignore) c.count(E.empty() ? "verdict_ignore_clean" : "verdict_ignore_with_outstanding_blocks");
-        else c.count(expected ? "verdict_pass_expected_count_met" : "verdict_pass_clean");
-        if (rr.freed_earlier) c.count("tests_releasing_earlier_tests_blocks");
-        if (rr.freed_earlier && !E.empty()) { c.count("tests_releasing_earlier_and_leaking_own"); nontrivial = true; }
-        if (rr.freed_earlier && (size_t) rr.freed_earlier == E.size()) c.count("tests_release_exactly_offsets_leak");
-        if (rr.expect_set && rr.expect > 0) { c.count("tests_declaring_nonzero_expectation"); nontrivial = true; }
         if (rr.realloc_failed) c.count("realloc_failures_injected", (uint64_t) rr.realloc_failed);
-        if (rr.plugin_fails) c.count(E.empty() ? "tests_failed_by_other_plugin_clean" : "tests_failed_by_other_plugin_with_outstanding_blocks");
         if (!(rr.phases & 2)) c.count("tests_body_skipped");
-        for (int bi : E) c.count(std::string("leaked_kind_") + KIND_NAME[B[bi].kind]);
+
+        size_t earlier_failures = (size_t) rr.own_fails;         // failures the test already has when a leak plugin's post action runs
+        size_t leaking_detectors = 0;
+        for (int step = 0; step < 2; step++) {
+            const int d = step == 0 ? inner : 1 - inner;
+            if (!has[d]) continue;
+            const std::string sfx = SFX[d];
+            const bool second_of_two = mode == 2 && step == 1;
+            std::set<int> E; size_t earlier_live = 0;
+            for (int i = 0; i < nB; i++) if (B[i].det == d) {
+                if (B[i].owner_run == r) { if (B[i].freed_run == -1 || B[i].freed_run > r) E.insert(i); }
+                else if (B[i].owner_run < r && (B[i].freed_run == -1 || B[i].freed_run > r)) earlier_live++;
+            }
+            unsigned long expected = rr.expect_set[d] ? rr.expect[d] : 0;
+            bool want = earlier_failures == 0 && !rr.ignore[d] && E.size() != expected;
+            bool suppressed_by_inner = second_of_two && rr.own_fails == 0 && earlier_failures != 0 && !rr.ignore[d] && E.size() != expected;
+            const std::vector<const FailRec*>& lk = leak[d];
+            std::string where = where0 + (mode == 0 ? "" : d ? " [plugin with its own detector" : " [plugin on the global detector") + (mode == 2 ? (second_of_two ? ", outer of two leak plugins" : ", inner of two leak plugins") : "") + (mode == 0 ? "" : "]") +
+                                (second_of_two ? ", leak failures of the inner plugin " + std::to_string(earlier_failures - (size_t) rr.own_fails) : std::string()) +
+                                ", ignore " + std::to_string(rr.ignore[d]) + ", expected " + (rr.expect_set[d] ? std::to_string(rr.expect[d]) : std::string("default 0")) +
+                                ", outstanding own blocks " + std::to_string(E.size()) + ", released blocks of earlier tests " + std::to_string(rr.freed_earlier[d]) + ", earlier tests' blocks still live " + std::to_string(earlier_live);
+            std::string decl = rr.expect_set[d] ? "declared" : "default";
+            // would the observed verdict be right if a realloc'ed block still belonged to the test that first allocated it? (diagnostic suffix only)
+            size_t adopted = 0; for (int bi : E) if (B[bi].adopted) adopted++;
+            bool want_alt = earlier_failures == 0 && !rr.ignore[d] && E.size() - adopted != expected;
+            std::string alt = (adopted && want_alt == !lk.empty()) ? ":consistent-if-realloc-of-earlier-tests-block-is-not-an-allocation" : "";
+            if (adopted) c.count("tests_leaking_realloc_of_earlier_tests_block");
+            // verdict
+            if (lk.size() > 1) c.violation("verdict:leak-failure-repeated" + sfx, where + ": " + std::to_string(lk.size()) + " leak failures for one test");
+            if (want && lk.empty()) {
+                std::string k = "verdict:leak-failure-missing:" + std::string(E.size() > expected ? "more-than-" : "fewer-than-") + decl + (rr.freed_earlier[d] ? ":released-earlier-tests-blocks" : "") + alt + sfx;
+                c.violation(k, where);
+            }
+            if (!want && !lk.empty()) {
+                std::string reason = rr.own_fails ? "test-already-failed" : earlier_failures ? "other-leak-plugin-already-failed-the-test" : rr.ignore[d] ? "leaks-ignored" : "count-equals-" + decl;
+                Parsed P = parse_report(lk[0]->msg);
+                bool earlier = false;
+                for (const Entry& e : P.e) { auto it = J.by_num.find(Judge::key(d, e.num)); if (it != J.by_num.end() && B[it->second].owner_run < r) earlier = true; }
+                c.violation("verdict:leak-failure-spurious:" + reason + (earlier ? ":blames-earlier-tests-blocks" : "") + alt + sfx, where + ": " + std::string(lk[0]->msg).substr(0, 400));
+            }
+            if (!lk.empty()) {
+                const FailRec* f = lk[0];
+                if (strcmp(f->nameonly, NAMES[rr.test]) != 0 || !strstr(f->name, GROUPS[rr.test])) c.violation("blame:leak-failure-names-other-test" + sfx, where + ": failure is attributed to " + f->name);
+                if (strcmp(f->file, FILES[rr.test]) != 0 || f->line != SH[rr.test]->getLineNumber()) c.violation("blame:leak-failure-location" + sfx, where + ": failure located at " + std::string(f->file) + ":" + std::to_string(f->line));
+                if (want) J.check_report("report:", sfx, d, f->msg, E, r, where);
+                c.count("leak_failures_observed");
+                if (d) c.count("own_detector_leak_failures_observed");
+            }
+            // evidence (verdict counters are per plugin verdict: a test under two leak plugins contributes two)
+            if (want) c.count(E.size() > expected ? "verdict_leak_more_than_expected" : "verdict_leak_fewer_than_expected");
+            else if (earlier_failures) c.count(E.empty() ? "verdict_failed_test_clean" : "verdict_failed_test_with_outstanding_blocks");
+            else if (rr.ignore[d]) c.count(E.empty() ? "verdict_ignore_clean" : "verdict_ignore_with_outstanding_blocks");
+            else c.count(expected ? "verdict_pass_expected_count_met" : "verdict_pass_clean");
+            if (rr.freed_earlier[d]) c.count("tests_releasing_earlier_tests_blocks");
+            if (rr.freed_earlier[d] && !E.empty()) { c.count("tests_releasing_earlier_and_leaking_own"); nontrivial = true; }
+            if (rr.freed_earlier[d] && (size_t) rr.freed_earlier[d] == E.size()) c.count("tests_release_exactly_offsets_leak");
+            if (rr.expect_set[d] && rr.expect[d] > 0) { c.count("tests_declaring_nonzero_expectation"); nontrivial = true; }
+            if (rr.plugin_fails) c.count(E.empty() ? "tests_failed_by_other_plugin_clean" : "tests_failed_by_other_plugin_with_outstanding_blocks");
+            for (int bi : E) c.count(std::string("leaked_kind_") + KIND_NAME[B[bi].kind]);
+            if (d) {
+                // the situations that tell "the plugin worked on its own detector" from "it worked on the global one"
+                c.count("own_detector_verdicts");
+                if (earlier_live) {
+                    c.count("own_detector_verdicts_with_earlier_tests_blocks_live");
+                    if (!want && earlier_failures == 0 && !rr.ignore[d]) c.count(expected ? "own_detector_count_met_while_earlier_blocks_live" : "own_detector_clean_pass_while_earlier_blocks_live");
+                    if (want && !E.empty()) c.count("own_detector_leak_reports_while_earlier_blocks_live");
+                }
+                if (rr.freed_earlier[d] && !E.empty()) c.count("own_detector_tests_releasing_earlier_and_leaking_own");
+                if (want) c.count("own_detector_verdict_leak");
+            }
+            if (mode == 2) {
+                c.count(d ? "two_plugins_verdicts_own_detector" : "two_plugins_verdicts_global_detector");
+                if (!E.empty()) leaking_detectors++;
+                if (suppressed_by_inner) c.count(d ? "two_plugins_outer_own_detector_verdict_suppressed_by_inner_leak_failure" : "two_plugins_outer_global_verdict_suppressed_by_inner_leak_failure");
+                if (want && second_of_two) c.count("two_plugins_outer_leak_verdict_after_silent_inner");
+            }
+            earlier_failures += lk.size();
+        }
+        if (mode == 2) {
+            if (leaking_detectors == 2) c.count("two_plugins_tests_leaking_on_both_detectors");
+            else if (leaking_detectors == 1) c.count("two_plugins_tests_leaking_on_one_detector_only");
+        }
     }
-    // final report
-    {
+    // final report, per plugin: the blocks of its detector that are still live
+    for (int d = 0; d < 2; d++) if (has[d]) {
+        const std::string pfx = "final-report:", sfx = SFX[d];
         std::set<int> L;
-        for (int i = 0; i < nB; i++) if (B[i].freed_run == -1) L.insert(i);
+        for (int i = 0; i < nB; i++) if (B[i].det == d && B[i].freed_run == -1) L.insert(i);
         if (L.empty()) {
-            if (final_text[0]) c.violation("final-report:not-empty-though-nothing-outstanding", std::string(final_text).substr(0, 300));
+            if (final_text[d][0]) c.violation(pfx + "not-empty-though-nothing-outstanding" + sfx, std::string(final_text[d]).substr(0, 300));
             c.count("final_reports_empty");
         } else {
-            if (!final_text[0]) c.violation("final-report:empty-though-blocks-outstanding", std::to_string(L.size()) + " blocks are still live at the end of the program");
-            else J.check_report("final-report:", final_text, L, nR, "final report after " + std::to_string(nR) + " tests");
+            if (!final_text[d][0]) c.violation(pfx + "empty-though-blocks-outstanding" + sfx, std::to_string(L.size()) + " blocks are still live at the end of the program");
+            else J.check_report(pfx, sfx, d, final_text[d], L, nR, std::string("final report ") + (d ? "of the plugin with its own detector " : "") + "after " + std::to_string(nR) + " tests");
             c.count("final_reports_with_leaks");
+            if (d) c.count("own_detector_final_reports_with_leaks");
         }
     }
+    c.count(mode == 0 ? "programs_global_detector" : mode == 1 ? "programs_plugin_with_own_detector" : G.local_outer ? "programs_two_leak_plugins_own_detector_outer" : "programs_two_leak_plugins_global_detector_outer");
     c.count("programs");
     for (int i = 0; i < O_N; i++) if (OPC[i]) c.count(std::string("op_") + OP_NAME[i], OPC[i]);
     for (int i = 0; i < K_N; i++) if (KINDC[i]) c.count(std::string("alloc_") + KIND_NAME[i], KINDC[i]);
@@ -601,22 +731,28 @@ static void run_and_judge(vf::Ctx& c) {
     if (rep > 1) c.count("programs_repeated");
     if (nontrivial) { char hb[40]; snprintf(hb, sizeof hb, "%016llx", (unsigned long long) program_hash(G)); c.nontrivial(hb); }
 
-    // ---------------- cleanup: release everything still live, detector stays disabled
+    // ---------------- cleanup: release everything still live, detectors stay disabled
     MemoryLeakWarningPlugin::turnOnDefaultNotThreadSafeNewDeleteOverloads();
+    int misuse_before_sweep = g_local_misuse;
     release_leftovers();
     size_t residual = DET->totalMemoryLeaks(mem_leak_period_enabled);
     if (residual) DET->clearAllAccounting(mem_leak_period_enabled);
+    size_t residual_own = LDET ? LDET->totalMemoryLeaks(mem_leak_period_all) : 0;
     MemoryLeakWarningPlugin::turnOffNewDeleteOverloads();
+    if (LDET) { LDET->~MemoryLeakDetector(); LDET = NULL; }
+    PL[0] = PL[1] = NULL;
     if (g_sweep_failures) c.violation("harness:misuse-reported-while-releasing-leftover-blocks", std::to_string(g_sweep_failures) + " failure(s), first: " + std::string(SWEEP_MSG).substr(0, 300));
+    if (g_local_misuse != misuse_before_sweep) c.violation("own-detector:misuse-reported-while-releasing-leftover-blocks", std::string(LOCAL_MISUSE).substr(0, 300));
     if (residual) c.violation("harness:residual-blocks-after-cleanup", std::to_string(residual) + " enabled-period blocks remain after every script block was released");
+    if (residual_own) c.violation("own-detector:residual-blocks-after-cleanup", std::to_string(residual_own) + " blocks remain in the plugin's own detector after every script block was released");
     for (int i = 0; i < nFR; i++) { free(FR[i].name); free(FR[i].nameonly); free(FR[i].file); free(FR[i].msg); }
-    free(final_text);
+    free(final_text[0]); free(final_text[1]);
     nFR = 0;
 }
 
 // ------------------------------------------------------------------ generators
 static void clear_program(int ntests) {
-    G.ntests = ntests; G.repeat = 1; G.nslots = 16; G.profile = 0; G.threadsafe = false;
+    G.ntests = ntests; G.repeat = 1; G.nslots = 16; G.profile = 0; G.threadsafe = false; G.detmode = 0; G.local_outer = false;
     for (int t = 0; t < ntests; t++) memset(&G.t[t], 0, sizeof(TestScript));
 }
 static void push(int t, int ph, OpRec o) { TestScript& ts = G.t[t]; if (ts.nops[ph] < MAX_OPS) ts.ops[ph][ts.nops[ph]++] = o; }
@@ -625,7 +761,8 @@ static void insert_at(int t, int ph, int pos, OpRec o) {
     for (int i = ts.nops[ph]; i > pos; i--) ts.ops[ph][i] = ts.ops[ph][i - 1];
     ts.ops[ph][pos] = o; ts.nops[ph]++;
 }
-static OpRec mk(int op, int slot = 0, int kind = 0, unsigned size = 0, unsigned arg = 0) { OpRec o; o.op = (uint8_t) op; o.slot = (uint8_t) slot; o.kind = (uint8_t) kind; o.pad = 0; o.size = (uint16_t) size; o.arg = (uint16_t) arg; return o; }
+// OpRec::pad: with two leak plugins (detmode 2), 1 = the operation is addressed to the plugin with its own detector
+static OpRec mk(int op, int slot = 0, int kind = 0, unsigned size = 0, unsigned arg = 0, int det = 0) { OpRec o; o.op = (uint8_t) op; o.slot = (uint8_t) slot; o.kind = (uint8_t) kind; o.pad = (uint8_t) det; o.size = (uint16_t) size; o.arg = (uint16_t) arg; return o; }
 
 struct Prof { int w_alloc, w_free_own, w_free_old, w_realloc, w_realloc_fail, w_temp, w_check; int p_fail, p_ignore, p_expect; int max_ops; };
 static const Prof PROFILES[] = {
@@ -645,9 +782,11 @@ static unsigned pick_size(vf::Rng& r) {
 }
 
 // generator-side prediction of the slot table (workload shaping only; the oracle uses the ledger of what really executed)
-struct GenState { int occ[MAX_SLOTS]; int fam[MAX_SLOTS]; };
+struct GenState { int occ[MAX_SLOTS]; int fam[MAX_SLOTS]; int det[MAX_SLOTS]; };
 
 static void gen_test(vf::Rng& r, const Prof& pf, int profile, int t, GenState& gs) {
+    const bool two = G.detmode == 2;                             // no extra draws in the single-plugin modes
+    auto pick_det = [&]() { return two ? (int) r.below(2) : 0; };
     int fail_ph = -1, fail2_ph = -1;
     if (r.chance(pf.p_fail)) { fail_ph = (int) r.below(3); if (fail_ph < 2 && r.chance(25)) fail2_ph = 2; }
     int alive_len[3] = { 0, 0, 0 };
@@ -673,21 +812,20 @@ static void gen_test(vf::Rng& r, const Prof& pf, int profile, int t, GenState& g
             auto collect = [&](int what) { nc = 0; for (int s = 0; s < G.nslots; s++) { bool ok = what == 0 ? gs.occ[s] < 0 : what == 1 ? gs.occ[s] == t : what == 2 ? (gs.occ[s] >= 0 && gs.occ[s] != t) : (gs.occ[s] >= 0 && gs.fam[s] == 2); if (ok) cand[nc++] = s; } };
             if (choice == 1) { collect(1); if (!nc) choice = 0; }
             if (choice == 2) { collect(2); if (!nc) choice = 0; }
-            if (choice == 3 || choice == 4) { collect(3); if (!nc) { if (choice == 3 && r.chance(50)) { collect(0); if (nc) { int s = cand[r.below((uint64_t) nc)]; push(t, ph, mk(O_REALLOC, s, 0, 1 + (unsigned) r.below(40))); if (!dead) { gs.occ[s] = t; gs.fam[s] = 2; } continue; } } choice = 0; } }
+            if (choice == 3 || choice == 4) { collect(3); if (!nc) { if (choice == 3 && r.chance(50)) { collect(0); if (nc) { int s = cand[r.below((uint64_t) nc)]; int d = pick_det(); push(t, ph, mk(O_REALLOC, s, 0, 1 + (unsigned) r.below(40), 0, d)); if (!dead) { gs.occ[s] = t; gs.fam[s] = 2; gs.det[s] = d; } continue; } } choice = 0; } }
             if (choice == 0) { collect(0); if (!nc) { collect(1); if (!nc) collect(2); choice = nc ? 1 : 6; } }
             switch (choice) {
-            case 0: { int s = cand[r.below((uint64_t) nc)]; int k = pick_kind(r, profile); push(t, ph, mk(O_ALLOC, s, k, pick_size(r))); if (!dead) { gs.occ[s] = t; gs.fam[s] = family(k); } break; }
+            case 0: { int s = cand[r.below((uint64_t) nc)]; int k = pick_kind(r, profile); unsigned sz = pick_size(r); int d = pick_det(); push(t, ph, mk(O_ALLOC, s, k, sz, 0, d)); if (!dead) { gs.occ[s] = t; gs.fam[s] = family(k); gs.det[s] = d; } break; }
             case 1: case 2: { int s = cand[r.below((uint64_t) nc)]; push(t, ph, mk(O_FREE, s)); if (!dead) gs.occ[s] = -1; break; }
             case 3: { int s = cand[r.below((uint64_t) nc)]; push(t, ph, mk(O_REALLOC, s, 0, 1 + (unsigned) r.below(44))); if (!dead) gs.occ[s] = t; break; }
             case 4: { int s = cand[r.below((uint64_t) nc)]; push(t, ph, mk(O_REALLOC_FAIL, s, 0, 1 + (unsigned) r.below(44))); break; }
-            case 5: push(t, ph, mk(O_TEMP, 0, pick_kind(r, profile), pick_size(r))); break;
+            case 5: { unsigned sz = pick_size(r); int k = pick_kind(r, profile); push(t, ph, mk(O_TEMP, 0, k, sz, 0, pick_det())); break; }
             default: push(t, ph, mk(O_CHECK)); break;
             }
         }
         if (!dead) alive_len[ph] = G.t[t].nops[ph];
         if (ph == 1 && body_dead) alive_len[ph] = -1;      // body never runs
     }
-    int L = 0; for (int s = 0; s < G.nslots; s++) if (gs.occ[s] == t) L++;
     auto place = [&](OpRec o) {
         int ph; do ph = (int) r.below(3); while (alive_len[ph] < 0);
         bool deadzone = r.chance(6) && G.t[t].nops[ph] > alive_len[ph];
@@ -695,34 +833,38 @@ static void gen_test(vf::Rng& r, const Prof& pf, int profile, int t, GenState& g
         insert_at(t, ph, pos, o);
         if (!deadzone) alive_len[ph]++;
     };
-    if (r.chance(pf.p_expect)) {
-        unsigned n;
-        switch (r.below(20)) {
-        case 0: case 1: case 2: case 3: case 4: case 5: case 6: case 7: n = (unsigned) L; break;
-        case 8: case 9: case 10: case 11: n = (unsigned) L + 1; break;
-        case 12: case 13: case 14: n = L > 0 ? (unsigned) L - 1 : 2; break;
-        case 15: case 16: n = (unsigned) r.below(6); break;
-        case 17: n = 0; break;
-        case 18: n = 7 + (unsigned) r.below(3); break;
-        default: n = 100 + (unsigned) r.below(60000); break;
+    for (int d = 0; d < (two ? 2 : 1); d++) {                    // declarations per leak plugin, shaped around the predicted number of its own leaks
+        int L = 0; for (int s = 0; s < G.nslots; s++) if (gs.occ[s] == t && (!two || gs.det[s] == d)) L++;
+        if (r.chance(pf.p_expect)) {
+            unsigned n;
+            switch (r.below(20)) {
+            case 0: case 1: case 2: case 3: case 4: case 5: case 6: case 7: n = (unsigned) L; break;
+            case 8: case 9: case 10: case 11: n = (unsigned) L + 1; break;
+            case 12: case 13: case 14: n = L > 0 ? (unsigned) L - 1 : 2; break;
+            case 15: case 16: n = (unsigned) r.below(6); break;
+            case 17: n = 0; break;
+            case 18: n = 7 + (unsigned) r.below(3); break;
+            default: n = 100 + (unsigned) r.below(60000); break;
+            }
+            if (r.chance(12)) place(mk(O_EXPECT, 0, 0, 0, (unsigned) r.below(5), d));    // an earlier declaration that the later one replaces (usually)
+            place(mk(O_EXPECT, 0, 0, 0, n, d));
         }
-        if (r.chance(12)) place(mk(O_EXPECT, 0, 0, 0, (unsigned) r.below(5)));    // an earlier declaration that the later one replaces (usually)
-        place(mk(O_EXPECT, 0, 0, 0, n));
+        if (r.chance(pf.p_ignore)) place(mk(O_IGNORE, 0, 0, 0, 0, d));
     }
-    if (r.chance(pf.p_ignore)) place(mk(O_IGNORE));
     if (r.chance(profile == 3 ? 12 : 3)) G.t[t].plugfail = (uint8_t) (1 + r.below(2));
 }
 
-static void gen_random_program(vf::Ctx& c, int profile, int max_tests) {
+static void gen_random_program(vf::Ctx& c, int profile, int max_tests, int detmode = 0) {
     vf::Rng& r = c.rng;
     int nt;
     switch (r.below(4)) { case 0: nt = r.range(1, 3); break; case 1: nt = r.range(2, 6); break; default: nt = r.range(1, max_tests); break; }
     clear_program(nt);
-    G.profile = profile;
+    G.profile = profile; G.detmode = detmode;
+    if (detmode == 2) G.local_outer = r.chance(50);
     G.nslots = r.range(3, 16);
     G.repeat = r.chance(80) ? 1 : r.chance(75) ? 2 : 3;
     G.threadsafe = r.chance(15);
-    GenState gs; for (int s = 0; s < MAX_SLOTS; s++) { gs.occ[s] = -1; gs.fam[s] = 0; }
+    GenState gs; for (int s = 0; s < MAX_SLOTS; s++) { gs.occ[s] = -1; gs.fam[s] = 0; gs.det[s] = 0; }
     for (int t = 0; t < nt; t++) gen_test(r, PROFILES[profile], profile, t, gs);
 }
 
@@ -737,15 +879,27 @@ static void sec_offset(vf::Ctx& c) {
     run_and_judge(c);
 }
 
+// the same program space with the leak plugin on a detector of its own, and with two leak plugins (one per detector)
+static void sec_own_detector(vf::Ctx& c) {
+    int profile = c.rng.chance(40) ? 0 : 1 + (int) c.rng.below(4);
+    gen_random_program(c, profile, c.thorough ? 30 : 12, 1);
+    run_and_judge(c);
+}
+static void sec_two_plugins(vf::Ctx& c) {
+    int profile = c.rng.chance(40) ? 0 : 1 + (int) c.rng.below(4);
+    gen_random_program(c, profile, c.thorough ? 30 : 12, 2);
+    run_and_judge(c);
+}
+
 // verdict matrix: one subject test between a leaking predecessor and clean successors, every combination enumerated
 static const int MX_KINDS[] = { K_NEW_LOC, K_NEWA, K_MALLOC, K_STRDUP };
-enum { MX_L = 4, MX_PH = 3, MX_EXP = 6, MX_IGN = 2, MX_FAIL = 5, MX_FE = 3, MX_K = 4 };
-static const uint64_t MX_TOTAL = (uint64_t) MX_L * MX_PH * MX_EXP * MX_IGN * MX_FAIL * MX_FE * MX_K;
+enum { MX_L = 4, MX_PH = 3, MX_EXP = 6, MX_IGN = 2, MX_FAIL = 5, MX_FE = 3, MX_K = 4, MX_DET = 2 };     // MX_DET: plugin on the global detector / on its own detector
+static const uint64_t MX_TOTAL = (uint64_t) MX_L * MX_PH * MX_EXP * MX_IGN * MX_FAIL * MX_FE * MX_K * MX_DET;
 static void sec_matrix(vf::Ctx& c) {
     uint64_t i = c.idx;
     int L = (int) (i % MX_L); i /= MX_L; int ph = (int) (i % MX_PH); i /= MX_PH; int ex = (int) (i % MX_EXP); i /= MX_EXP; int ign = (int) (i % MX_IGN); i /= MX_IGN;
-    int fl = (int) (i % MX_FAIL); i /= MX_FAIL; int fe = (int) (i % MX_FE); i /= MX_FE; int kind = MX_KINDS[i % MX_K];
-    clear_program(4); G.profile = 10; G.nslots = 8;
+    int fl = (int) (i % MX_FAIL); i /= MX_FAIL; int fe = (int) (i % MX_FE); i /= MX_FE; int kind = MX_KINDS[i % MX_K]; i /= MX_K;
+    clear_program(4); G.profile = 10; G.nslots = 8; G.detmode = (int) (i % MX_DET);
     push(0, 1, mk(O_ALLOC, 0, kind, 9)); push(0, 1, mk(O_ALLOC, 1, kind, 17));              // predecessor leaks two blocks (and is reported for them)
     if (ign) push(1, 0, mk(O_IGNORE));
     if (ex) push(1, 0, mk(O_EXPECT, 0, 0, 0, (unsigned) ex - 1));
@@ -754,6 +908,34 @@ static void sec_matrix(vf::Ctx& c) {
     if (fl) push(1, fl == 4 ? 1 : fl - 1, mk(O_FAIL, 0, fl == 4 ? F_FAIL_C : fl == 2 ? F_CHECK : F_FAIL));
     push(2, 1, mk(O_ALLOC, 5, kind, 12)); push(2, 2, mk(O_FREE, 5));                         // clean successor
     for (int s = 0; s < 5; s++) push(3, 1, mk(O_FREE, s));                                   // sweeper: releases everything earlier tests left, leaks nothing
+    run_and_judge(c);
+}
+
+// two leak plugins, one per detector: every combination of (#blocks leaked on each detector) x (declaration given to each
+// plugin) x (ignore given to each) x own failure x chain order x which detector's earlier blocks the subject releases,
+// around a predecessor that leaks on both detectors and clean successors
+enum { TP_L = 3, TP_EXP = 4, TP_IGN = 2, TP_FAIL = 2, TP_ORD = 2, TP_FE = 4 };
+static const uint64_t TP_TOTAL = (uint64_t) TP_L * TP_L * TP_EXP * TP_EXP * TP_IGN * TP_IGN * TP_FAIL * TP_ORD * TP_FE;
+static void sec_two_plugin_matrix(vf::Ctx& c) {
+    uint64_t i = c.idx;
+    int L[2], ex[2], ign[2];
+    L[0] = (int) (i % TP_L); i /= TP_L; L[1] = (int) (i % TP_L); i /= TP_L;
+    ex[0] = (int) (i % TP_EXP); i /= TP_EXP; ex[1] = (int) (i % TP_EXP); i /= TP_EXP;
+    ign[0] = (int) (i % TP_IGN); i /= TP_IGN; ign[1] = (int) (i % TP_IGN); i /= TP_IGN;
+    int fl = (int) (i % TP_FAIL); i /= TP_FAIL; int ord = (int) (i % TP_ORD); i /= TP_ORD; int fe = (int) (i % TP_FE);
+    clear_program(4); G.profile = 12; G.nslots = 12; G.detmode = 2; G.local_outer = ord != 0;
+    static const int kinds[2] = { K_NEWA, K_MALLOC };
+    for (int d = 0; d < 2; d++) push(0, 1, mk(O_ALLOC, d, kinds[d], 9 + 8 * (unsigned) d, 0, d));      // predecessor: one block on each detector (slots 0, 1)
+    for (int d = 0; d < 2; d++) {
+        if (ign[d]) push(1, 0, mk(O_IGNORE, 0, 0, 0, 0, d));
+        if (ex[d]) push(1, 0, mk(O_EXPECT, 0, 0, 0, (unsigned) ex[d] - 1, d));
+        for (int k = 0; k < L[d]; k++) push(1, 1, mk(O_ALLOC, 2 + 2 * d + k, kinds[(d + k) % 2], 5 + 6 * (unsigned) k, 0, d));
+    }
+    if (fe & 1) push(1, 2, mk(O_FREE, 0));                                                   // subject releases the predecessor's global / own-detector block
+    if (fe & 2) push(1, 2, mk(O_FREE, 1));
+    if (fl) push(1, 1, mk(O_FAIL, 0, F_CHECK));
+    push(2, 1, mk(O_ALLOC, 8, K_NEW, 12, 0, 0)); push(2, 1, mk(O_ALLOC, 9, K_STRDUP, 12, 0, 1)); push(2, 2, mk(O_FREE, 8)); push(2, 2, mk(O_FREE, 9));   // clean successor
+    for (int s = 0; s < 6; s++) push(3, 1, mk(O_FREE, s));                                   // sweeper
     run_and_judge(c);
 }
 
@@ -770,12 +952,14 @@ static void sec_bulk(vf::Ctx& c) {
     int own = r.range(0, 3);
     for (int k = 0; k < own && s < MAX_SLOTS; k++) push(1, 1, mk(O_ALLOC, s++, (int) r.below(K_N), 1 + (unsigned) r.below(20)));
     if (r.chance(50)) for (int k = 0; k < n; k++) if (r.chance(80)) push(2, 2, mk(O_FREE, k));
+    G.detmode = r.chance(70) ? 0 : 1;                                                         // long reports from the plugin's own detector as well
     run_and_judge(c);
 }
 
 static void init() {
     SWEEP = new SweepShell;
     FAILPLUGIN = new FailPlugin;
+    MARKER = new MarkerPlugin;
     REAL_REALLOC = PlatformSpecificRealloc;
     for (int i = 0; i < MAX_TESTS; i++) {
         char* f = (char*) malloc(24); snprintf(f, 24, "c07_t%02d.cpp", i); FILES[i] = f;
@@ -793,6 +977,9 @@ int main(int argc, char** argv) {
         { "random_programs", 40000, 600000, sec_random, false },
         { "offsetting_releases", 10000, 150000, sec_offset, false },
         { "bulk_leaks", 2000, 30000, sec_bulk, false },
+        { "own_detector_programs", 12000, 150000, sec_own_detector, false },
+        { "two_leak_plugins_programs", 12000, 150000, sec_two_plugins, false },
+        { "two_leak_plugins_matrix", TP_TOTAL, TP_TOTAL, sec_two_plugin_matrix, true },
     };
     return vf::harness_main(argc, argv, S, init);
 }
